@@ -65,6 +65,9 @@ func (ex *Exec) vtCall(g *G, fn *ssa.Function, args []Value, done func(Value)) {
 		lim := uint64(1) << 62
 		ex.assume(B.And(B.Slt(B.BVC(-lim, 64), ns), B.Slt(ns, B.BVC(lim, 64))))
 		done(ex.mkTime(ns))
+	case "TimeWide":
+		// any instant whose UnixNano is representable (about +-292 years around 1970)
+		done(ex.mkTime(ex.input(str(0), "int64", smt.BV(64))))
 	case "Dur":
 		done(ex.input(str(0), "int64", smt.BV(64)))
 	case "Msg":
